@@ -777,6 +777,43 @@ def recbatchRun (toks : List String) : String :=
       go (BRec.init m) ops [] []
   | _ => "bad-request"
 
+/-- `fsim uniform <noiseless circuit> <N> <k> (<mask> <count>)*` : unbiasedness of undetermined measurements (C02).
+    Over the circuit's possible records (an affine space, sampled uniformly when every free measurement is a fair coin), a parity
+    `mask · record` is either constant — then it equals the reference record's parity in every shot — or exactly 50/50.
+    `count` = number of shots (of `N`) in which the parity was 1; 50/50 is judged by the Bernstein bound of `Model/Noise` (1e-12). -/
+def fsimUniform (toks : List String) : String :=
+  match parseCircuit toks with
+  | some (c, nS :: kS :: rest) =>
+    match nS.toNat?, kS.toNat? with
+    | some N, some k =>
+      if rest.length != 2 * k then "bad-request" else
+      let refRun := runCircuit c (.bias false)
+      match refRun.err with
+      | some e => "err " ++ e
+      | none =>
+      let ref := refRun.record
+      let (cols, _, _) := faultColumns c
+      let basis := (gfSpan cols).map (·.1)
+      let dot (m v : List Bool) : Bool := (m.zip v).foldl (fun acc (a, b) => acc != (a && b)) false
+      let rec go : Nat → List String → String
+        | _, [] => "ok"
+        | i, m :: cnt :: more =>
+          let mask := bitsOf m
+          match cnt.toNat? with
+          | none => "bad-request"
+          | some count =>
+            if mask.length != ref.length then s!"mask {i} length" else
+            if basis.any (fun v => dot mask v) then
+              if Stim.countPlausible N count (1/2) then go (i + 1) more
+              else s!"biased parity mask={m} ones={count} of {N}"
+            else
+              let expect := if dot mask ref then N else 0
+              if count == expect then go (i + 1) more else s!"fixed parity varies mask={m} ones={count} expected={expect}"
+        | i, _ => s!"bad-request at {i}"
+      go 0 rest
+    | _, _ => "bad-request"
+  | _ => "bad-request"
+
 def xorClosure (vs : List (List Bool)) : List (List Bool) :=
   let step (acc : List (List Bool)) : List (List Bool) :=
     (acc ++ (acc.flatMap fun a => vs.map fun b => xorBits a b)).eraseDups
@@ -1647,6 +1684,7 @@ def answer (toks : List String) : String :=
   | "fsim" :: "shots" :: rest => fsimShots rest
   | "fsim" :: "m2d" :: rest => fsimM2d rest
   | "fsim" :: "dets" :: rest => fsimDets rest
+  | "fsim" :: "uniform" :: rest => fsimUniform rest
   | "record" :: "run" :: rest => recordRun rest
   | "amps" :: rest => ampsCmd rest
   | "xorvec" :: rest => xorvecCmd rest
